@@ -2226,6 +2226,22 @@ int EGLPNUM_TYPENAME_ILLlib_addcol (
 	A = &qslp->A;
 	ncols = qslp->ncols;
 
+	/* ind[] holds row indices; check them before anything is modified (they
+	 * were only checked in matrix_addcol, after the name had been registered) */
+	{
+		int k;
+
+		for (k = 0; k < cnt; k++)
+		{
+			if (ind[k] < 0 || ind[k] >= qslp->nrows)
+			{
+				QSlog("EGLPNUM_TYPENAME_ILLlib_addcol called with bad row index %d", ind[k]);
+				rval = 1;
+				ILL_CLEANUP;
+			}
+		}
+	}
+
 	if (qslp->rA)
 	{															/* After an addcol call, needs to be updated */
 		EGLPNUM_TYPENAME_ILLlp_rows_clear (qslp->rA);
